@@ -1,6 +1,7 @@
 package main
 
 import (
+	"runtime/debug"
 	"strconv"
 	"os"
 	"fmt"
@@ -208,6 +209,9 @@ func (e *Enc) Encode() {
 	defer func() {
 		if r := recover(); r != nil {
 			e.unsupp("encoder panic: %v", r)
+			if os.Getenv("GOBTVC_PANIC_TRACE") != "" {
+				fmt.Fprintf(os.Stderr, "%s\n", debug.Stack())
+			}
 		}
 	}()
 	e.analyseCFG()
